@@ -426,7 +426,9 @@ namespace rvutils::pbo
             do
             {
                 file.read(buff, buff_size);
-                for (size_t i = 0; i < buff_size; i++)
+                // Only the bytes actually read may be inspected
+                auto count = static_cast<size_t>(file.gcount());
+                for (size_t i = 0; i < count; i++)
                 {
                     if (buff[i] == '\0')
                     {
@@ -437,6 +439,7 @@ namespace rvutils::pbo
                 }
                 runs++;
             } while (file.tellg() < eof && !file.eof());
+            file.clear();
             file.seekg(start_pos);
             return -1;
         }
@@ -530,6 +533,12 @@ namespace rvutils::pbo
 
             // read in the whole data available into helper struct
             file.read(reinterpret_cast<char*>(&data_mapped), sizeof(header::bin));
+            if (static_cast<size_t>(file.gcount()) != sizeof(header::bin))
+            { // header got cut off
+                file.clear();
+                file.seekg(start_pos);
+                return {};
+            }
             file.clear();
 
 
@@ -1219,6 +1228,11 @@ namespace rvutils::pbo
             {
                 m_headers.push_back(*opt_header);
             }
+            if (!opt_header.has_value())
+            { // header table is not terminated
+                m_good = false;
+                return;
+            }
             m_headers.push_back(*opt_header);
 #if _DEBUG
             DBG_POS = file.tellg();
@@ -1226,12 +1240,19 @@ namespace rvutils::pbo
 
 
             auto offset = file.tellg();
+            file.seekg(0, std::ios::end);
+            auto eof = file.tellg();
             // Add data-sections to headers
             for (auto &it : m_headers)
             {
                 it.block_data.start = offset;
                 offset += it.size;
                 it.block_data.end = offset;
+            }
+            if (offset > eof)
+            { // data-sections exceed the file
+                m_good = false;
+                return;
             }
 
             // All fine here, end processing.
